@@ -121,6 +121,10 @@ func VerifStubSkip(d *_cbor.Decoder) error {
 
 type verifNotUint struct{}
 
+// VerifDepositValue is what a generic decode (destination *any) yields in the symbolic run:
+// the harness prepares the Go value the decoder would produce for its input.
+var VerifDepositValue any
+
 const verifMaxItems = 6
 
 // verifSplitArray is the contract for decoding one array item into its raw elements:
@@ -203,6 +207,13 @@ func VerifStubDecoderDecode(d *_cbor.Decoder, dest any) error {
 		}
 		v.value = list
 		st.pos = end
+		return nil
+	case *any:
+		if VerifDepositValue == nil {
+			return errVerifStub
+		}
+		*v = VerifDepositValue // "the generic decoder produced this Go value"
+		st.pos = len(st.data)
 		return nil
 	case *uint64:
 		major, arg, hlen, indef, ok := VerifHead(st.data, st.pos)
